@@ -131,7 +131,7 @@ def body(case, ctx, lm, log, fac):
                 R[k] = eta * R[k] + (1 - eta) * (yt == yp)
         # ---- white-box cross-checks of the statistics the property names (skipped when not readable)
         conf = getattr(det, "_confusion", None)
-        if conf is not None and np.asarray(conf).tolist() != C:
+        if conf is not None and np.asarray(conf).tolist() not in (C, [[C[0][0], C[1][0]], [C[0][1], C[1][1]]]):  # either orientation
             ctx.violation("confusion", "C06:confusion", f"sample {t} (n={n}): confusion matrix {np.asarray(conf).tolist()}, epoch's counts with one pseudo-count per cell {C}; cfg={cfg}")
             raise EndRun()
         rs, pt = getattr(det, "_r_stat", None), getattr(det, "_p_table", None)
